@@ -21,6 +21,9 @@ const (
 	dummyAudioFilterStageDummy    = 3
 )
 
+// dummyAudioMaxCatchUpMs 视频时间戳相对上一个静音包的最大补包时长，超过则不补
+const dummyAudioMaxCatchUpMs = 1000
+
 type DummyAudioFilter struct {
 	uk          string
 	waitAudioMs int
@@ -145,9 +148,19 @@ func (filter *DummyAudioFilter) handleDummyStage(msg base.RtmpMsg) {
 		filter.onPopProxy(msg)
 		filter.prevAudioTs = ats
 	} else {
+		// 视频时间戳向后跳跃超过阈值（或者回退、回绕）时，不再逐帧补静音包，直接从新的时间戳重新开始。
+		// 否则补包的数量和时间戳差值成正比，一个视频包可能导致几十万个静音包，甚至在uint32回绕处死循环。
+		if msg.Header.TimestampAbs-filter.prevAudioTs > dummyAudioMaxCatchUpMs {
+			ats := msg.Header.TimestampAbs
+			amsg := filter.makeOneAudio(ats)
+			filter.onPopProxy(amsg)
+			filter.onPopProxy(msg)
+			filter.prevAudioTs = ats
+			return
+		}
 		for {
 			ats := filter.prevAudioTs + filter.calcAudioDurationMs()
-			if ats > msg.Header.TimestampAbs {
+			if int32(msg.Header.TimestampAbs-ats) < 0 {
 				break
 			}
 			amsg := filter.makeOneAudio(ats)
